@@ -14,7 +14,7 @@ pub struct Pools {
 }
 
 // includes the characters adjacent to every ASCII class boundary (@ A..Z [ ` a..z { / 0..9 : DEL)
-pub const ASCII_POOL: &[u8] = b"abcxyzABCXYZ0129 /_-.:,;|\t\\$^'!@[`{~]}\x7f";
+pub const ASCII_POOL: &[u8] = b"abcxyzABCXYZ0129 /_-.:,;|\t\\$^'!@[`{~]}\x7f\0\x01\x1f";
 /// boundary rich pool for score oracles: first / last letters and digits, their neighbours
 pub const SCORE_WIDE: &[u8] = b"azAZ09 /_-.:@[`{\tbB";
 pub const SCORE_ASCII: &[u8] = b"abAB1 /_-.:";
@@ -157,6 +157,19 @@ pub fn gen_alphabet(rng: &mut Rng, pools: &Pools, profile: Profile) -> Vec<char>
             let k = rng.range(1, 3);
             for _ in 0..k {
                 out.push(*rng.pick(ASCII_POOL) as char);
+            }
+            // characters that alias an ASCII character of this alphabet when truncated to 8 or 16 bits
+            if rng.coin() {
+                let b = out[rng.below(out.len())] as u32;
+                let alias = match rng.below(4) {
+                    0 => b + 0x100 * rng.range(1, 0xd7) as u32,
+                    1 => b + 0x10000 * rng.range(1, 16) as u32,
+                    2 => b + 0x400,
+                    _ => b + 0x4e00,
+                };
+                if let Some(c) = char::from_u32(alias) {
+                    out.push(c);
+                }
             }
             let k = rng.range(1, 3);
             for _ in 0..k {
